@@ -20,7 +20,7 @@ import MgpuModel.C18_Base
 In the Go code a clone keeps its global string ID across the network, so the answer's `RspTo`
 names the clone directly. The engine model numbers requests per port (`nextA`); the table `names`
 of a node undoes this renumbering (local request id ↦ originating node and its clone).
-Ghost fields (`namesAll`, `l2all`, `l2done`, `got`, `sent`, `ctlGot`, and `frm`/`k` of `NRsp`) do not
+Ghost fields (`namesAll`, `l2all`, `l2done`, `got`, `sent`, `ctlGot`, `outAll`, and `frm`/`k` of `NRsp`) do not
 influence behaviour. -/
 namespace C18
 open Util
@@ -67,6 +67,8 @@ structure Node where
   sent : List Req := []
   /-- ghost: every control response the command processor received (newest first) -/
   ctlGot : List CtlRsp := []
+  /-- ghost: every answer the network took from this node (newest first) -/
+  outAll : List NRsp := []
 deriving Repr
 
 structure Sys where
@@ -168,7 +170,8 @@ def sstep (y : Sys) : SOp → Sys
         match takeName o.rspTo B.names with
         | none => y
         | some (nm, rest) =>
-          { y with nodes := y.nodes.set b { B with s := step B.cfg B.s .takeAnsO, names := rest },
+          { y with nodes := y.nodes.set b { B with s := step B.cfg B.s .takeAnsO, names := rest,
+                                                    outAll := ⟨o.dst, nm.c.fid, o.data, b, o.rspTo⟩ :: B.outAll },
                    netR := y.netR ++ [⟨o.dst, nm.c.fid, o.data, b, o.rspTo⟩] }
   | .delivR j =>
     match y.netR[j]? with
